@@ -1,5 +1,5 @@
 (* Proofs about Model/Rate.v (C17, rate limiter). *)
-From Coq Require Import List ZArith Bool Lia.
+From Coq Require Import List ZArith Bool Lia QArith.
 From HV Require Import Model.Rate.
 Import ListNotations.
 Open Scope Z_scope.
@@ -229,6 +229,120 @@ Proof.
   { clear H. induction reqs as [|[now t] r IH]; cbn [sum_tokens]; [lia|].
     apply tokens_nonneg_cons in Hn. destruct Hn. specialize (IH H0). lia. }
   assert (0 <= interval c * sum_tokens reqs) by (apply Z.mul_nonneg_nonneg; lia). lia.
+Qed.
+
+(* --- any rate: the interval is the rational 1e9 / pps ----------------------- *)
+
+(* interval * rate = one second, exactly, for every rate *)
+Lemma q_interval_exact (c : qcfg) : 0 < pps c ->
+  Qeq (Qmult (Qmake (q_interval_num c) (Z.to_pos (q_interval_den c))) (inject_Z (pps c)))
+      (inject_Z nanos_per_second).
+Proof.
+  intros Hp. unfold Qeq, Qmult, inject_Z, q_interval_num, q_interval_den. cbn [Qnum Qden].
+  rewrite Pos.mul_1_r, Z2Pos.id by exact Hp. ring.
+Qed.
+
+(* no permit is shorter than the interval: n permits are worth n * 1e9 / pps nanoseconds,
+   never n * floor(1e9 / pps) *)
+Lemma q_capped_le c x : q_capped c x <= x.
+Proof.
+  unfold q_capped. destruct (qmax c) as [m|]; [|lia].
+  destruct (x >? m * nanos_per_second) eqn:E; [apply gtb_true in E|]; lia.
+Qed.
+
+Lemma quot_mul_le (x d : Z) : 0 < d -> Z.quot x d * d <= Z.max x 0 /\ x - (d - 1) <= Z.quot x d * d.
+Proof.
+  intros Hd. pose proof (Z.quot_rem x d ltac:(lia)) as Hqr.
+  destruct (Z_le_gt_dec 0 x) as [Hx|Hx].
+  - pose proof (Z.rem_bound_pos x d Hx Hd). lia.
+  - pose proof (Z.rem_bound_pos (- x) d ltac:(lia) Hd) as Hr. rewrite Z.rem_opp_l in Hr by lia.
+    assert (Z.quot x d <= 0) by nia. nia.
+Qed.
+
+(* every call pushes the next free time by its tokens' worth, less than one nanosecond short *)
+Lemma q_stored_ge_debit c last now tokens : 0 < pps c ->
+  last * pps c + tokens * nanos_per_second - (pps c - 1) <= q_stored c last now tokens * pps c.
+Proof.
+  intros Hp. unfold q_stored.
+  set (x := q_capped c ((now - last) * pps c - tokens * nanos_per_second)).
+  pose proof (q_capped_le c ((now - last) * pps c - tokens * nanos_per_second)) as Hc. fold x in Hc.
+  destruct (quot_mul_le x (pps c) Hp) as [Hq _].
+  rewrite Z.mul_sub_distr_r.
+  destruct (Z_le_gt_dec 0 x) as [Hx|Hx].
+  - assert (Z.max x 0 = x) by lia. lia.
+  - (* negative credit: the truncation toward zero rounds the debt down by less than 1 ns *)
+    pose proof (Z.quot_rem x (pps c) ltac:(lia)) as Hqr.
+    pose proof (Z.rem_bound_pos (- x) (pps c) ltac:(lia) Hp) as Hr. rewrite Z.rem_opp_l in Hr by lia. lia.
+Qed.
+
+Lemma q_stored_ge_now c m last now tokens : 0 < pps c -> qmax c = Some m -> 0 <= m ->
+  now * pps c - m * nanos_per_second <= q_stored c last now tokens * pps c.
+Proof.
+  intros Hp Hm Hm0. unfold q_stored.
+  set (x := q_capped c ((now - last) * pps c - tokens * nanos_per_second)).
+  assert (Hx : x <= m * nanos_per_second).
+  { unfold x, q_capped. rewrite Hm. destruct (_ >? _) eqn:E; [lia|apply gtb_false in E; lia]. }
+  destruct (quot_mul_le x (pps c) Hp) as [Hq _].
+  assert (0 <= m * nanos_per_second) by (unfold nanos_per_second; lia).
+  rewrite Z.mul_sub_distr_r. lia.
+Qed.
+
+Lemma q_final_ge c : 0 < pps c -> forall reqs s,
+  s * pps c + nanos_per_second * sum_tokens reqs - Z.of_nat (length reqs) * (pps c - 1)
+    <= q_final c s reqs * pps c.
+Proof.
+  intros Hp. induction reqs as [|[now t] r IH]; intros s; cbn [q_final sum_tokens length]; [lia|].
+  pose proof (IH (q_stored c s now t)). pose proof (q_stored_ge_debit c s now t Hp).
+  rewrite Nat2Z.inj_succ. lia.
+Qed.
+
+(* debt form for any rate: tokens asked for since the bucket was free at [s], times one
+   second, <= rate * elapsed, plus less than one nanosecond's worth per call *)
+Lemma q_rate_debt c s reqs nj w : 0 < pps c ->
+  decide (q_rcfg c) (q_final c s reqs) nj = Granted w ->
+  nanos_per_second * sum_tokens reqs <= ((nj + w) - s) * pps c + Z.of_nat (length reqs) * (pps c - 1).
+Proof.
+  intros Hp H. apply granted_wait in H. destruct H as [_ H]. pose proof (q_final_ge c Hp reqs s).
+  assert ((q_final c s reqs) * pps c <= (nj + w) * pps c) by (apply Z.mul_le_mono_nonneg_r; lia).
+  lia.
+Qed.
+
+(* with a burst cap, between two calls i < j *)
+Lemma q_rate_between c s ni ti (mid : list req) nj m w : 0 < pps c -> qmax c = Some m -> 0 <= m -> 0 <= ti ->
+  decide (q_rcfg c) (q_final c s ((ni, ti) :: mid)) nj = Granted w ->
+  nanos_per_second * sum_tokens mid
+    <= ((nj + w) - Z.max ni s) * pps c + m * nanos_per_second + Z.of_nat (S (length mid)) * (pps c - 1).
+Proof.
+  intros Hp Hm Hm0 Hti H. cbn [q_final] in H.
+  pose proof (q_rate_debt c _ mid nj w Hp H) as Hd.
+  pose proof (q_stored_ge_debit c s ni ti Hp). pose proof (q_stored_ge_now c m s ni ti Hp Hm Hm0).
+  assert (0 <= ti * nanos_per_second) by (unfold nanos_per_second; lia).
+  assert (0 <= m * nanos_per_second) by (unfold nanos_per_second; lia).
+  rewrite Nat2Z.inj_succ. unfold req in *.
+  destruct (Z.max_spec ni s) as [[_ ->]|[_ ->]]; lia.
+Qed.
+
+(* a rate that divides 1e9: the rational model is the integer model of the first part *)
+Lemma q_stored_integer c last now tokens : 0 < pps c -> nanos_per_second mod pps c = 0 ->
+  q_stored c last now tokens = stored (q_to_rcfg c) last now tokens.
+Proof.
+  intros Hp Hdiv. unfold q_stored, stored, q_capped, capped, q_to_rcfg. cbn [interval max_permits].
+  set (I := nanos_per_second / pps c).
+  assert (HG : nanos_per_second = I * pps c).
+  { unfold I. pose proof (Z.div_mod nanos_per_second (pps c) ltac:(lia)). lia. }
+  rewrite HG.
+  replace ((now - last) * pps c - tokens * (I * pps c)) with ((now - last - tokens * I) * pps c) by ring.
+  destruct (qmax c) as [m|].
+  - replace (m * (I * pps c)) with (m * I * pps c) by ring.
+    destruct ((now - last - tokens * I) * pps c >? m * I * pps c) eqn:E1;
+      destruct (now - last - tokens * I >? m * I) eqn:E2.
+    + rewrite Z.quot_mul by lia. reflexivity.
+    + exfalso. apply gtb_true in E1. apply gtb_false in E2.
+      assert ((now - last - tokens * I) * pps c <= m * I * pps c) by (apply Z.mul_le_mono_nonneg_r; lia). lia.
+    + exfalso. apply gtb_false in E1. apply gtb_true in E2.
+      assert (m * I * pps c < (now - last - tokens * I) * pps c) by (apply Z.mul_lt_mono_pos_r; lia). lia.
+    + rewrite Z.quot_mul by lia. reflexivity.
+  - rewrite Z.quot_mul by lia. reflexivity.
 Qed.
 
 (* --- concurrent callers --------------------------------------------------- *)
